@@ -32,10 +32,12 @@ Ptrs == {"", "/", "/publicKey", "/publicKey/0", "/publicKey/0/id", "/publicKey/-
          "/other", "/other/a", "/alsoKnownAs/0",
          \* not JSON pointers at all (RFC 6901: a pointer is empty or starts with "/"); a lenient
          \* implementation may read them as the pointer that follows the first "/"
-         "x/service", "#/publicKey/0", "publicKey"}
+         "x/service", "#/publicKey/0", "publicKey",
+         \* a line feed inside a reference token (pattern matching that stops at line ends)
+         "/service/0/new\nmember", "/publicKey/0/a\nb"}
 
-UnderPK(p)  == p \in {"/publicKey", "/publicKey/0", "/publicKey/0/id", "/publicKey/-", "#/publicKey/0"}
-UnderSvc(p) == p \in {"/service", "/service/0", "/service/0/serviceEndpoint", "x/service"}
+UnderPK(p)  == p \in {"/publicKey", "/publicKey/0", "/publicKey/0/id", "/publicKey/-", "#/publicKey/0", "/publicKey/0/a\nb"}
+UnderSvc(p) == p \in {"/service", "/service/0", "/service/0/serviceEndpoint", "x/service", "/service/0/new\nmember"}
 Root(p)     == p = ""
 Protected(p) == UnderPK(p) \/ UnderSvc(p) \/ Root(p)
 
